@@ -1,14 +1,21 @@
 /-
   Drive/Sched.lean — driver suite `sched`: run the interleaving model (Sem/Sched.lean) on the validation calls and the
   event-level schedules the harness observed on the real code.
-  in : {"calls": [call…], "init": [[cell, name]…], "schedules": [[tid…]…]}
-       call = {"k":"homog","cell":c,"name":n,"initW":b,"elems":[[v,ok]…]} | {"k":"set","cell":c,"name":n,"elems":…}
+  in : {"calls": [call…], "sites": [[cell, site key]…], "init": [[cell, name]…], "schedules": [[tid…]…]}
+       call = {"k":"homog","cell":c,"name":n,"initW":b,"elems":[[v,ok]…]} | {"k":"set"|"iset","cell":c,"name":n,"elems":…}
             | {"k":"map","kc":c,"vc":c,"name":n,"entries":[[[k,ok],[v,ok]]…]} | {"k":"pos","base":c,"name":n,"n":k,"elems":…}
-  out: {"progs": [[step letter…]…], "seq": [outcome…], "runs": [[outcome|null…]…], "conflictFree": bool,
-        "tableKeys": [[key, safe]…]}
+            | {"k":"wrap","kind":"allOf"|"anyOf"|"oneOf"|"notField","name":n,"v":v,"opts":[[cell,ok]…]}
+       a schedule lists thread ids at EVENT granularity: entry `t` = thread `t` runs up to and including its next step
+       that touches a shared cell or starts a temp structure (what the harness observes); after the listed entries every
+       thread runs to completion
+  The programs are `modelProgs Generated.sharedWrites sites calls`: shared cells where the CURRENT tree's table lists the
+  site as racy, private copies where it does not.
+  out: {"progs": [[step letter…]…] (event steps as the harness spells them, others "E"), "seq": [outcome…],
+        "runs": [[outcome|null…]…], "conflictFree": bool, "treeRacy": bool, "private": [cell…]}
 -/
 import Lean.Data.Json
 import TypedpyModel.Sem.Sched
+import TypedpyModel.Generated.SharedWrites
 namespace Typedpy.Drive.Sched
 open Lean (Json)
 open Typedpy.Sched
@@ -36,13 +43,37 @@ def callOfJson (j : Json) : Except String Call := do
     pure (.map (← (← j.getObjVal? "kc").getNat?) (← (← j.getObjVal? "vc").getNat?) name es)
   | "pos" =>
     pure (.pos (← (← j.getObjVal? "base").getNat?) name (← (← j.getObjVal? "n").getNat?) (← elemsOf j "elems"))
+  | "iset" => pure (.iset (← (← j.getObjVal? "cell").getNat?) name (← elemsOf j "elems"))
+  | "wrap" =>
+    let kind ← match (← (← j.getObjVal? "kind").getStr?) with
+      | "allOf" => pure WKind.allOf
+      | "anyOf" => pure WKind.anyOf
+      | "oneOf" => pure WKind.oneOf
+      | "notField" => pure WKind.notField
+      | s => throw s!"unknown wrapper kind {s}"
+    let opts ← (← (← j.getObjVal? "opts").getArr?).toList.mapM fun o => do
+      let a ← o.getArr?
+      if a.size != 2 then throw "opt: expected [cell, ok]"
+      pure ((← a[0]!.getNat?), (← a[1]!.getBool?))
+    pure (.wrap kind name (← (← j.getObjVal? "v").getInt?) opts)
   | s => throw s!"unknown call kind {s}"
 
-def stepLetter : Step → String
-  | .writeShared c n => s!"W{c}={n}"
+def nmLetter : Nm → String
+  | .const s => s!"'{s}'"
+  | .cell c => s!"{c / 2}"
+  | .cellSuf c suf => s!"{c / 2}+{suf}"
+
+/-- event steps as the harness spells the events it observes on the real code; thread-private steps are "E" -/
+def stepLetter (s : Step) : String :=
+  if !s.isEvent then "E" else
+  match s with
+  | .write c (.const n) => s!"W{c / 2}={n}"
+  | .write c n => s!"W{c / 2}=@{nmLetter n}"
   | .newTemp => "N"
-  | .storeTemp c _ _ => s!"S{c}"
-  | .loadTemp c => s!"R{c}"
+  | .store n _ _ => s!"S{nmLetter n}"
+  | .check n _ => s!"S{nmLetter n}"
+  | .load n => s!"R{nmLetter n}"
+  | .move a _ => s!"R{nmLetter a}"
   | .emit _ => "E"
 
 def outcomeToJson : Option Outcome → Json
@@ -51,26 +82,64 @@ def outcomeToJson : Option Outcome → Json
   | some (.raised (.invalid n)) => Json.mkObj [("invalid", .str n)]
   | some (.raised (.missing n)) => Json.mkObj [("missing", .str n)]
 
+/-- number of steps up to and including the first event step (all of them when there is none) -/
+def takeEvent : List Step → Nat
+  | [] => 0
+  | s :: rest => if s.isEvent then 1 else 1 + takeEvent rest
+
+/-- event-level schedule ↦ step-level schedule of `Sched.run` -/
+def expand (rem : List (List Step)) : List Nat → List Nat
+  | [] => []
+  | t :: rest =>
+    let p := rem.getD t []
+    let k := takeEvent p
+    List.replicate k t ++ expand (rem.set t (p.drop k)) rest
+
+def completion (progs : List (List Step)) : List Nat :=
+  (List.range progs.length).flatMap fun i => List.replicate (progs.getD i []).length i
+
+def callCells : Call → List Nat
+  | .homog c _ _ _ => [c]
+  | .set c _ _ => [c]
+  | .iset c _ _ => [c]
+  | .map kc vc _ _ => [kc, vc]
+  | .pos b _ n _ => (List.range n).map (b + ·)
+  | .wrap _ _ _ os => os.map (·.1)
+
 def run (j : Json) : Except String Json := do
   let calls ← (← (← j.getObjVal? "calls").getArr?).toList.mapM callOfJson
-  let init ← match j.getObjVal? "init" with
-    | .ok x => (← x.getArr?).toList.mapM fun p => do
-        let a ← p.getArr?
-        if a.size != 2 then throw "init: expected [cell, name]"
-        pure ((← a[0]!.getNat?), (← a[1]!.getStr?))
+  let pairsOf (k : String) : Except String (List (Nat × String)) :=
+    match j.getObjVal? k with
+    | .ok x => do
+        (← x.getArr?).toList.mapM fun p => do
+          let a ← p.getArr?
+          if a.size != 2 then throw s!"{k}: expected [cell, string]"
+          pure ((← a[0]!.getNat?), (← a[1]!.getStr?))
     | .error _ => pure []
+  let init ← pairsOf "init"
+  let sites ← pairsOf "sites"
+  for c in calls do
+    for x in callCells c do
+      if !(sites.any fun p => p.1 == x) then throw s!"cell {x} has no site"
   let scheds ← (← (← j.getObjVal? "schedules").getArr?).toList.mapM fun s => do
     (← s.getArr?).toList.mapM fun t => t.getNat?
-  let progs := calls.map Call.prog
-  let sh := Shared.ofList init
+  let tbl := Typedpy.Generated.sharedWrites
+  let progs := modelProgs tbl sites calls
   let n := progs.length
+  -- initial names are given per original cell: they hold for the shared cell and for every private copy of it
+  let sh : Shared := fun c =>
+    let orig := if c % 2 == 0 then c / 2 else (c / 2) / n
+    (Shared.ofList init) orig
   let runs := scheds.map fun s =>
-    let cfg := Typedpy.Sched.run (Cfg.init sh progs) s
+    let cfg := Typedpy.Sched.run (Cfg.init sh progs) (expand progs s ++ completion progs)
     Json.arr ((List.range n).map fun i => outcomeToJson (resultAt cfg i)).toArray
+  let priv := (sites.filter fun p => tablePriv tbl sites p.1).map fun p => Json.num (Lean.JsonNumber.fromNat p.1)
   pure (Json.mkObj [
     ("progs", Json.arr (progs.map fun p => Json.arr (p.map fun s => Json.str (stepLetter s)).toArray).toArray),
     ("seq", Json.arr (progs.map fun p => outcomeToJson (sequentialResult sh p)).toArray),
     ("runs", Json.arr runs.toArray),
-    ("conflictFree", .bool (conflictFreeB progs))])
+    ("conflictFree", .bool (conflictFreeB progs)),
+    ("treeRacy", .bool (tbl.any fun r => !r.safe && r.readBack)),
+    ("private", Json.arr priv.toArray)])
 
 end Typedpy.Drive.Sched
